@@ -75,6 +75,16 @@ CHECKS = {
         "helpers against a list-of-pairs model; repr() for password leaks.",
         "url.path may be raw or once-percent-decoded equal. Userinfo/host text needs no percent-encoding (password may contain ':' and '@').",
     ),
+    "C19": (
+        "exploration",
+        "round-trip: Hypothesis event dictionaries -> baize encoder / SendEventResponse (ASGI on a virtual-time loop, WSGI with its relay thread) -> independent WHATWG event-stream parser",
+        "Generated sequences of event dictionaries (data over full Unicode weighted to all line/paragraph separators, 4 charsets, key orders) are "
+        "encoded by build_bytes_from_sse and by both SendEventResponse classes with pings interleaved (virtual-time loop on ASGI; real 20 ms "
+        "ping interval for a labelled minority on WSGI), decoded with the declared charset and parsed by a parser written from the HTML "
+        "standard; dispatched events must equal the yielded ones (type, id, retry, data lines joined by LF). An exhaustive sweep covers "
+        "every separator-like code point in 7 positions and all pairs.",
+        "Trailing terminator of data may or may not give a final empty line; data-less events may dispatch nothing or one empty event.",
+    ),
 }
 
 NOT_YET = "check not built yet (work in progress; see DESIGN.md section 3 for the plan)"
